@@ -184,6 +184,30 @@ func runAdapter(sc AdScenario) (*verdict, *adResult) {
 	}
 	for _, op := range sc.Ops {
 		before := getNow()
+		// one call of several commits under the preset-only mask: the composed message has two values only and may go
+		// through the preset and come BACK within the call (# -> #P -> #), so "the last message equals GetPositions" is
+		// already true before anything of this call has been composed. The messages owed are counted instead (drained
+		// pace: nothing else is pending; the directions of one call are distinct, so the inner stream merges nothing).
+		owed, n0 := 0, 0
+		if !sc.Burst && sc.Mask == "p" && len(op.St) > 1 {
+			cur := ""
+			cur, n0 = last()
+			step := map[int]int{}
+			for d, v := range sim {
+				step[d] = v
+			}
+			for _, s := range op.St {
+				step[s[0]] = s[1]
+				msg := "#"
+				if len(step) == 2 && step[1] == 41 && step[2] == 42 {
+					msg = "#P"
+				}
+				if n0+owed == 0 || msg != cur { // a caller that was sent nothing yet is sent the first composition whatever it is
+					owed++
+					cur = msg
+				}
+			}
+		}
 		write(op)
 		for _, s := range op.St {
 			r.chgs = append(r.chgs, fmt.Sprintf("%d=%d/u", s[0], s[1]))
@@ -193,7 +217,7 @@ func runAdapter(sc AdScenario) (*verdict, *adResult) {
 			r.allChanged = false
 		}
 		if !sc.Burst {
-			adWait(func() bool { l, _ := last(); return l == want })
+			adWait(func() bool { l, n := last(); return l == want && n >= n0+owed })
 		}
 	}
 	if sc.Burst {
